@@ -81,6 +81,14 @@ tainted<int, S> cb_foreign_param(rlbox_sandbox<S>&, tainted<int, S2>);
 int cb_plain_ret(rlbox_sandbox<S>&, tainted<int, S>);
 int* cb_plain_ptr_ret(rlbox_sandbox<S>&, tainted<int, S>);
 tainted<long, S> cb_long(rlbox_sandbox<S>&, tainted<long, S>, tainted<long, S>);
+// a plain (unwrapped) parameter NEXT TO tainted ones: the sandbox-supplied argument would arrive
+// as a plain value
+void cb_mixed_ptr(rlbox_sandbox<S>&, tainted<int, S>, const char*);
+void cb_mixed_struct(rlbox_sandbox<S>&, tainted<int, S>, PS);
+void cb_mixed_ref(rlbox_sandbox<S>&, tainted<int, S>, const int&);
+void cb_mixed_fn(rlbox_sandbox<S>&, tainted<int, S>, Fn);
+void cb_mixed_int_last(rlbox_sandbox<S>&, tainted<int*, S>, tainted<long, S>, int);
+tainted<int, S> cb_mixed_first_plain(rlbox_sandbox<S>&, int*, tainted<int, S>);
 
 struct Env
 {
